@@ -119,6 +119,14 @@ def construct_present(name: str, ast_txt: str) -> bool:
     return False
 
 
+def operands_consistent(code: str) -> bool:
+    """an ISA operand letter names ONE operand of the instruction: a generated program that uses the same class and letter both as a
+    single register and as a pair (RsV and RssV) is not a behaviour any instruction can have"""
+    single = set(re.findall(r"\b([RCMPNVQ])([a-z])[VN]\b", code))
+    pair = {(c, l[0]) for c, l in re.findall(r"\b([RCMPNVQ])([a-z]{2})[VN]\b", code) if l[0] == l[1]}
+    return not (single & pair)
+
+
 def sym_lookup(known_sym: dict, c: str):
     """exact symptom class, else a listed pattern with `*` (e.g. linear:DPure:*:raw=0)"""
     if c in known_sym:
@@ -180,7 +188,7 @@ def run(spec: Spec, tier: str) -> int:
         b2, binfo = common.build_property(spec.prop, ["model/Guards.vo", "sem/Diff.vo", "proofs/SortSound.vo", "proofs/TmpDef.vo"])
         broken += b2
         model_ok = not any(x.kind in ("proof", "translator", "forbidden") for x in broken)
-        progs = list(dict.fromkeys(spec.programs(tier, rnd)))
+        progs = [c for c in dict.fromkeys(spec.programs(tier, rnd)) if operands_consistent(c)]
         witness_progs = [c for c in known_codes if c not in progs]
         allp = progs + witness_progs
         jobs = []
